@@ -18,6 +18,17 @@ CHECKS = {
             "CPython 3.11 is the reference; the whitelist of shared constructs (DESIGN.md C01 + Corrections) is trusted "
             "to contain only constructs on which the Starlark spec and Python agree.",
             "DESIGN.md#c01"),
+    "C02": ("exploration",
+            "bounded-exhaustive program families x all opacifying rewrites x {same module, frozen+loaded}; self-differential (all observations of one program must be identical)",
+            "Every program of the optimiser-directed families (inlining: 31 callee bodies x 11 argument shapes x possibly-"
+            "unassigned locals at every slot; 22 constant conditions x 16 side-effect forms; 39 raising pure builtins x 20 "
+            "live/dead positions; 85 specialisable expressions x 22 values as parameter/constant/global; slices of constant "
+            "receivers with constant/computed/absent components; once/twice-assigned globals; records/enums/annotations/"
+            "f-strings) plus the shared-core families is run as written and under 7 semantics-preserving rewrites, in the "
+            "defining module and after freeze+load: transcripts, side-effect order, failure and error message must coincide.",
+            "The rewrites (opaque() around literals/callees/receivers/conditions, dead second assignment) are assumed "
+            "semantics-preserving; file names inside qualified function names are normalised.",
+            "DESIGN.md#c02"),
     "C03": ("model_checking",
             "exhaustive enumeration of GC schedules (every subset of the safepoints) over bounded-exhaustive heap-shaping programs, on the real evaluator with a controlled collector",
             "For every program of the heap-shaping families (all statement sequences of length <=3 over a 50-statement "
@@ -29,6 +40,24 @@ CHECKS = {
             "Schedule space is what the evaluator offers (top-level statement safepoints). Poisoning turns dangling "
             "reads into faults deterministically but a dangling pointer never dereferenced is not observed.",
             "DESIGN.md#c03"),
+    "C08": ("exploration",
+            "complete enumeration of the finite signature x call-shape space on every call path, differential against CPython performing the same call",
+            "All parameter lists up to the tier bound over the six parameter kinds (plus 15 illegal orders) x all call shapes "
+            "(0..4 positional, named subsets, *seq of length 0..2, **map with overlapping/unknown/non-string keys): the tuple "
+            "of bound parameter values, or rejection, must equal CPython's on the direct, via-variable, struct-field, "
+            "inside-def (inlinable), callee-as-parameter, frozen+loaded, lambda and host eval_function paths.",
+            "CPython's binding rules are the reference; calls are written in the argument order Starlark's grammar accepts.",
+            "DESIGN.md#c08"),
+    "C10": ("exploration",
+            "exhaustive pairs over a boundary grid for every operator, folded-literal / runtime / Rust-API forms, differential against CPython big integers",
+            "Grid {0} u {+-2^k, +-2^k+-1 : k in 0..70, 126..129, 254..257}; ALL ordered pairs x 14 binary operators and "
+            "comparisons, all values x 77 shift counts, unary operators, string<->int in bases 2/8/10/16/36/0 with and "
+            "without prefixes, source literals, int<->float, and host i32/i64/u32/u64/usize/isize/BigInt round trips through "
+            "heap.alloc / UnpackValue; each as compile-time-folded literals and as runtime values; results compared with "
+            "CPython's exact integers.",
+            "CPython int is the oracle; shifts past 256 bits and floats past 2^1000 are not judged; mixed int/float "
+            "comparison is judged by C09, not here.",
+            "DESIGN.md#c10"),
     "C11": ("model_checking",
             "explicit-state BFS over the real containers (cloned per transition) in lock-step with a Vec-of-pairs reference model; invariant + all queries checked in every state",
             "Breadth-first search to a fixed point (or a stated depth) over SmallMap/SmallSet/Vec2/OrderedMap/OrderedSet/"
